@@ -179,8 +179,19 @@ class World(object):
         else:
             os.environ.pop("USE_MULTIPROCESSING", None)
         try:
-            with seam.activate(self.run, getattr(seam._tl, "task", 0)):
-                self.store = fhs.FileHashStore(self.props(cfg))
+            if self.knobs.get("real_mp"):
+                # C16 (b): the real multiprocessing.Lock / Condition / Manager().list() (no seam: the
+                # manager spawns a server process and creates sockets outside the sandbox)
+                import multiprocessing as real_mp
+                fhs.multiprocessing = real_mp
+                try:
+                    with seam.activate(None, 0):
+                        self.store = fhs.FileHashStore(self.props(cfg))
+                finally:
+                    fhs.multiprocessing = SIM_MP
+            else:
+                with seam.activate(self.run, getattr(seam._tl, "task", 0)):
+                    self.store = fhs.FileHashStore(self.props(cfg))
         finally:
             if old is None:
                 os.environ.pop("USE_MULTIPROCESSING", None)
